@@ -147,6 +147,22 @@ func genSim(r *term.Rng, idx int) term.T {
 		}
 		scripts = append(scripts, term.L(ops...))
 	}
+	// one battle in five with characters: the BattleStart script only queues insert abilities (equal and distinct
+	// priorities, a source that may be dead by then, abort flags) - the harness issues such a script before the
+	// battle starts
+	preBattle := nc > 0 && r.Chance(1, 5)
+	if preBattle {
+		ops := []term.T{}
+		for j := r.Range(1, 4); j > 0; j-- {
+			ab := []term.T{}
+			if r.Chance(1, 5) {
+				ab = append(ab, term.I(term.Pick(r, flags)))
+			}
+			ops = append(ops, term.C("SInsertAbility", term.I(int64(r.Range(1, 9))), term.I(term.Pick(r, prios)),
+				term.C("TId", term.I(int64(r.Range(1, idC)))), term.L(ab...), term.Nat(r.Intn(nbody))))
+		}
+		scripts[nbody] = term.L(ops...)
+	}
 	ids := func(k int) term.T {
 		out := []term.T{}
 		for ; k > 0; k-- {
@@ -247,8 +263,14 @@ func genSim(r *term.Rng, idx int) term.T {
 		}
 		return k
 	}
+	battleSlot := func(t term.T) term.T {
+		if preBattle {
+			return term.L(term.Nat(nbody))
+		}
+		return t
+	}
 	return term.C("mkCfg", term.L(units...), term.L(scripts...), term.L(next...), term.L(ults...),
-		lids(ln(r.Range(0, 1))), lids(ln(r.Range(0, 4))), lids(ln(r.Range(0, 4))), lids(ln(r.Range(0, 4))), lids(ln(r.Range(0, 3))),
+		battleSlot(lids(ln(r.Range(0, 1)))), lids(ln(r.Range(0, 4))), lids(ln(r.Range(0, 4))), lids(ln(r.Range(0, 4))), lids(ln(r.Range(0, 3))),
 		lids(ln(r.Range(0, 3))), lids(ln(r.Range(0, 3))), aids(ln(r.Range(0, 3))),
 		term.I(int64(r.Range(0, 4))), term.I(int64(r.Range(0, 12))))
 }
